@@ -95,7 +95,7 @@ Proof.
 Qed.
 Lemma wf_new_pd s v : wf s -> (forall r, v = Some (Some r) -> r < tlen s) -> wf (snd (new_pd P G C s v)).
 Proof.
-  intros [H1 H2] Hv. split; cbn; auto. intros d' r E. destruct (Nat.eqb d' (npd P G C s)); eauto.
+  intros [H1 H2] Hv. split; cbn; auto. intros d' r E. destruct (Nat.eqb d' (next_pd P G C s)); eauto.
 Qed.
 
 (* setters *)
@@ -497,11 +497,26 @@ Proof.
 Qed.
 
 (* ---------- link_, unlink_, copy, inverse ---------- *)
-Lemma link_set_post s o o' : wf s -> post s (link_set P G C s o o').
+Lemma ok_set_pdid n ob d : obj_ok n ob -> obj_ok n (set_pdid P G C ob d).
+Proof. destruct ob; exact (fun H => H). Qed.
+
+Lemma unshare_wf s o ob : wf s -> get_obj s o = Some ob ->
+  wf (unshare_params P G C cf s o ob) /\ tlen (unshare_params P G C cf s o ob) = tlen s.
+Proof.
+  intros Hw Hg. unfold unshare_params.
+  destruct (get_pd P G C s (o_pd P G C ob)) as [[r|]|]; auto.
+  destruct (c_link_unshares cf); auto. cbn [new_pd]. split; [|reflexivity].
+  apply wf_set_obj; [apply (wf_new_pd s None Hw); intros; discriminate|].
+  apply ok_set_pdid. exact (wf_get _ _ _ Hw Hg).
+Qed.
+
+Lemma link_set_post s o o' : wf s -> post s (link_set P G C cf s o o').
 Proof.
   intro Hw. unfold link_set. apply post_with_obj; auto. intros ob Hg. apply post_with_obj; auto. intros ob' Hg'.
   destruct (Nat.eqb o o'); auto with wfdb. destruct (negb _); auto with wfdb.
-  assert (R : post s (bind P G C (set_params P G C s o (SetLink o')) (fun _ s1 =>
+  destruct (unshare_wf s o ob Hw Hg) as [Hwu Hlu].
+  set (su := unshare_params P G C cf s o ob) in *.
+  assert (R : post s (bind P G C (set_params P G C su o (SetLink o')) (fun _ s1 =>
         with_obj P G C s1 o (fun ob1 =>
           match o_p P G C ob1 with
           | Some _ => Ok tt s1
@@ -514,7 +529,8 @@ Proof.
                   Ok tt (set_obj s2 o (set_p P G C ob1 (Some r))))
             end
           end)))).
-  { apply post_bind; [apply set_params_post; auto; intros; discriminate|].
+  { eapply post_weaken with (s := su); [|lia].
+    apply post_bind; [apply set_params_post; auto; intros; discriminate|].
     intros [] s1 _ Hw1 Hl1. apply post_with_obj; auto. intros ob1 Hg1.
     destruct (o_p P G C ob1); auto with wfdb.
     assert (Q : post s1 (bind P G C (with_obj P G C s1 o' (fun ob'' => data_ref P G C s1 ob'')) (fun r s2 =>
@@ -557,7 +573,7 @@ Proof.
   cbn [push_obj]. set (s1 := mkSt P G C (tens P G C s) (pds P G C s) (npd P G C s) (objs P G C s ++ [ob])).
   assert (Hw1 : wf s1) by (apply (wf_push s ob Hw Hob)).
   assert (Hl1 : tlen s1 = tlen s) by reflexivity.
-  set (m := if link && c_inv_link cf then link_set P G C s1 (length (objs P G C s)) o else Ok tt s1).
+  set (m := if link && c_inv_link cf then link_set P G C cf s1 (length (objs P G C s)) o else Ok tt s1).
   assert (Hm : post s1 m) by (subst m; destruct (link && c_inv_link cf); auto using link_set_post with wfdb).
   destruct m as [[] s2|e s2]; [|auto with wfdb].
   destruct Hm as [Hw2 Hl2]. cbn in Hw2, Hl2.
